@@ -95,6 +95,12 @@ def trees(tier):
             ('literal', '1.50'), ('literal', '007'), ('literal', '0.0'), ('literal', '1.'), ('literal', 'true'),
             ('literal', 'False'), ('literal', B('o1', "'a\"b'", '"c"')), ('literal', 'f("a", \'b"\')'),
             ('literal', B('-', '1.10', '2'))]
+    # string literals: either quote around every content of <= 3 characters over {a ' " \ blank-free}; texts the parser
+    # rejects are skipped (the property speaks about ASTs that were returned)
+    for q in ("'", '"'):
+        for n in (1, 2, 3):
+            for content in itertools.product("a'\"\\", repeat=n):
+                out.append(('string-enum', q + ''.join(content) + q))
     return out
 
 
@@ -129,6 +135,13 @@ def harness(it, px, params):
         it.call('register_infix_op', [mkstr(o), P_[o], Enum('InfixOpType', 0, 'CALC'), c02.assoc_enum(A[o]),
                                       ArcV(Cell(c02.echo_handler(o), 'h'))])
     rec = {'family': fam, 'text': text}
+    if fam == 'string-enum':
+        if api.parse(it, text).kind != 'ok':
+            rec['outcome'] = 'source-rejected'
+            rec['table'] = {}
+            px.cover('string-enum-rejected')
+            return rec
+        px.cover('string-enum-accepted')
     cause, detail, tj = roundtrip(it, text, rec)
     m = px.get_model()
     table = {o: (m.eval(P_[o], model_completion=True).as_signed_long(), 'LEFT' if A[o] else 'RIGHT') for o in used}
@@ -264,6 +277,10 @@ def run(ctx):
         table = {o: (int(p), a) for o, (p, a) in r['table'].items()}
         o = ctx.native(scenario(r['text'], table), 'dev')[-1]
         validated += 1
+        if r.get('outcome') == 'source-rejected':
+            if o.get('kind') == 'ok':
+                inconclusive.append('encoder mismatch on sampled path: %s is rejected by the model, accepted natively' % r['text'])
+            continue
         if native_roundtrip_broken(o) is not False or bytes.fromhex(o['expr']).decode('utf-8', 'replace') != r.get('expr'):
             inconclusive.append('encoder mismatch on sampled path: %s %s' % (r['text'], table))
     samples = []
